@@ -133,6 +133,7 @@ def run_slice(job: dict) -> dict:
                             scn = canonical(pa, pb, N, M, until, obs, cache, lazy, three)
                             sched = dict(POLICY_CYCLE[k % len(POLICY_CYCLE)])
                             sched["seed"] = H(seed, k) % (1 << 31)
+                            sched["max_decisions"] = 4000
                             tr = run_case(scn, sched)
                             a = Analysis(scn, tr)
                             res["evaluations"] += 1
@@ -191,6 +192,7 @@ def run_slice(job: dict) -> dict:
                         s_["beh"] = {"seed": 1, "p_self": 0.0, "p_out": 1.0, "L": {"*": 5}}
                     sched = dict(POLICY_CYCLE[k % len(POLICY_CYCLE)])
                     sched["seed"] = H(seed, k) % (1 << 31)
+                    sched["max_decisions"] = 4000
                     tr = run_case(scn, sched)
                     a = Analysis(scn, tr)
                     res["evaluations"] += 1
@@ -220,6 +222,7 @@ def run_slice(job: dict) -> dict:
                 scn["sims"][1]["beh"]["future_at_k"] = N - 1       # B's N-th answer is stamped t+1
                 sched = dict(POLICY_CYCLE[k % len(POLICY_CYCLE)])
                 sched["seed"] = H(seed, k) % (1 << 31)
+                sched["max_decisions"] = 4000
                 tr = run_case(scn, sched)
                 a = Analysis(scn, tr)
                 res["evaluations"] += 1
@@ -240,6 +243,7 @@ def run_slice(job: dict) -> dict:
         scn["config"]["max_loop_iterations"] = M
         sched = dict(POLICY_CYCLE[i % len(POLICY_CYCLE)])
         sched["seed"] = H(seed, "c09s", i) % (1 << 31)
+        sched["max_decisions"] = 4000
         tr = run_case(scn, sched)
         a = Analysis(scn, tr)
         res["evaluations"] += 1
